@@ -23,7 +23,7 @@ from ..gutil import key_of, maxabs
 
 LEVEL = "model_checking"
 RULE = ("rate PID: menu e in {-10,0,10} per axis (7 vectors) x dt {1e-3,1e-2,0.1} for every (i_max, f_cut) in {0,0.25,2.5} x {1,10,1e3}, BFS on the integrator state to fix-point; "
-        "height integrator: e_z menu x dt; velocity mode: 12 stick vectors x dt {0.01,0.5,5} x 2 vehicle positions x reset {0,1}, all words to the depth; stick maps on {-1,-1/2,0,1/2,1}^4; "
+        "height integrator: e_z menu x dt; velocity mode: 12 stick vectors x dt {0.01,0.5,5,10} x 2 vehicle positions x reset {0,1}, all words to the depth; stick maps on {-1,-1/2,0,1/2,1}^4; "
         "attitude laws on 40x40 attitude pairs (both signs, products, q_r = +-q). non-trivial = non-zero error / stick; distinct by raw bytes")
 ASSUMPTIONS = ["module constants (gains, limits) are read from the modules themselves", "reference logm in numpy; relative rotations within 0.01 rad of pi excluded"]
 
@@ -172,9 +172,9 @@ def explore_velocity(case):
     pws = [np.zeros(3), np.array([-40.0, 25.0, 7.0])]
     if tier == "thorough":
         items = list(itertools.product(range(4), (-1.0, 1.0), (0.01, 5.0), range(2), (0.0, 1.0)))
-        items0 = list(itertools.product(range(4), (-1.0, 0.0, 1.0), (0.01, 0.5, 5.0), range(2), (0.0, 1.0)))
+        items0 = list(itertools.product(range(4), (-1.0, 0.0, 1.0), (0.01, 0.5, 5.0, 10.0), range(2), (0.0, 1.0)))
     else:
-        items0 = items = list(itertools.product(range(4), (-1.0, 0.0, 1.0), (0.01, 0.5, 5.0), range(2), (0.0, 1.0)))
+        items0 = items = list(itertools.product(range(4), (-1.0, 0.0, 1.0), (0.01, 0.5, 5.0, 10.0), range(2), (0.0, 1.0)))
     start = (0.3, np.array([0.5, 0.0, 1.0]))
     seen = {key_of(np.concatenate([[start[0]], start[1]]))}
     fr = deque([(start, 0, ())])
@@ -378,7 +378,7 @@ class _V:
     chunks = 2
 
     def cases(self, tier, seed):
-        return [dict(sub="velocity", tier=tier, first=i) for i in range(4 * 3 * 3 * 2 * 2)]
+        return [dict(sub="velocity", tier=tier, first=i) for i in range(4 * 3 * 4 * 2 * 2)]
 
     def run(self, case):
         return explore_velocity(case)
